@@ -1,1 +1,242 @@
-//! C11: RFC 6265 Cookie encoder / Set-Cookie parser (reference model; to be written)
+//! Independent RFC 6265 models for C11: a `Cookie` request-header *encoder* (every wire form section 4.1.1 allows
+//! for a value: plain, double-quoted, percent-encoded — upper/lower hex, minimal/maximal set), a strict
+//! `Cookie` header reader used to bind the encoder to the grammar, and a strict `Set-Cookie` *parser*
+//! (section 4.1.1 grammar plus the `SameSite` attribute of RFC 6265bis).
+//!
+//! Nothing here shares code with ohkami (`percent-encoding` crate included).
+
+/* ---------------- character classes ---------------- */
+
+/// RFC 9110 token
+pub fn is_token_char(b: u8) -> bool {
+    matches!(b, b'!' | b'#' | b'$' | b'%' | b'&' | b'\'' | b'*' | b'+' | b'-' | b'.' | b'^' | b'_' | b'`' | b'|' | b'~') || b.is_ascii_alphanumeric()
+}
+pub fn is_token(s: &str) -> bool { !s.is_empty() && s.bytes().all(is_token_char) }
+
+/// cookie-octet = %x21 / %x23-2B / %x2D-3A / %x3C-5B / %x5D-7E
+pub fn is_cookie_octet(b: u8) -> bool {
+    matches!(b, 0x21 | 0x23..=0x2B | 0x2D..=0x3A | 0x3C..=0x5B | 0x5D..=0x7E)
+}
+
+fn hex_val(b: u8) -> Option<u8> {
+    match b { b'0'..=b'9' => Some(b - b'0'), b'a'..=b'f' => Some(b - b'a' + 10), b'A'..=b'F' => Some(b - b'A' + 10), _ => None }
+}
+
+/// does the text contain a well-formed `%XX` triplet?
+pub fn has_pct_triplet(s: &str) -> bool {
+    let b = s.as_bytes();
+    (0..b.len()).any(|i| b[i] == b'%' && b.get(i + 1).copied().and_then(hex_val).is_some() && b.get(i + 2).copied().and_then(hex_val).is_some())
+}
+
+/// Strict percent-decoding: every `%` must start a `%XX` triplet; the result must be UTF-8.
+pub fn pct_decode(s: &str) -> Result<String, String> {
+    let b = s.as_bytes();
+    let mut out = Vec::with_capacity(b.len());
+    let mut i = 0;
+    while i < b.len() {
+        if b[i] == b'%' {
+            let (h, l) = (b.get(i + 1).copied().and_then(hex_val), b.get(i + 2).copied().and_then(hex_val));
+            match (h, l) { (Some(h), Some(l)) => { out.push(h * 16 + l); i += 3 } _ => return Err(format!("`%` at {i} is not followed by two hex digits")) }
+        } else { out.push(b[i]); i += 1 }
+    }
+    String::from_utf8(out).map_err(|_| "percent-decoded bytes are not UTF-8".to_string())
+}
+
+/* ---------------- request side: encoding a jar ---------------- */
+
+#[derive(Clone, Copy, Debug, PartialEq, Eq, Hash, PartialOrd, Ord)]
+pub enum Enc {
+    /// the value as it is (possible only if every byte is a cookie-octet)
+    Plain,
+    /// DQUOTE value DQUOTE (same condition)
+    Quoted,
+    /// `%XX` (upper-case hex) for every byte that is not a cookie-octet, and for `%`
+    PctMin,
+    /// the same with lower-case hex
+    PctMinLower,
+    /// `%XX` for every byte outside ALPHA / DIGIT / `-._~`
+    PctAll,
+    QuotedPctMin,
+    QuotedPctAll,
+}
+
+impl Enc {
+    pub const ALL: [Enc; 7] = [Enc::Plain, Enc::Quoted, Enc::PctMin, Enc::PctMinLower, Enc::PctAll, Enc::QuotedPctMin, Enc::QuotedPctAll];
+    pub fn tag(self) -> &'static str {
+        match self { Enc::Plain => "plain", Enc::Quoted => "quoted", Enc::PctMin => "pct-min", Enc::PctMinLower => "pct-min-lower", Enc::PctAll => "pct-all",
+            Enc::QuotedPctMin => "quoted-pct-min", Enc::QuotedPctAll => "quoted-pct-all" }
+    }
+    pub fn from_tag(t: &str) -> Option<Enc> { Enc::ALL.iter().copied().find(|e| e.tag() == t) }
+    pub fn is_quoted(self) -> bool { matches!(self, Enc::Quoted | Enc::QuotedPctMin | Enc::QuotedPctAll) }
+    pub fn is_pct(self) -> bool { !matches!(self, Enc::Plain | Enc::Quoted) }
+}
+
+fn pct(value: &str, keep: impl Fn(u8) -> bool, lower: bool) -> String {
+    let mut out = String::new();
+    for &b in value.as_bytes() {
+        if keep(b) { out.push(b as char) }
+        else if lower { out.push_str(&format!("%{b:02x}")) } else { out.push_str(&format!("%{b:02X}")) }
+    }
+    out
+}
+
+/// The wire form of `value` under `enc`, or None if RFC 6265 does not allow that form for this value.
+pub fn encode_value(value: &str, enc: Enc) -> Option<String> {
+    let plain_ok = value.bytes().all(is_cookie_octet);
+    let min = |lower| pct(value, |b| is_cookie_octet(b) && b != b'%', lower);
+    let all = || pct(value, |b| b.is_ascii_alphanumeric() || matches!(b, b'-' | b'.' | b'_' | b'~'), false);
+    Some(match enc {
+        Enc::Plain => { if !plain_ok { return None } value.to_string() }
+        Enc::Quoted => { if !plain_ok { return None } format!("\"{value}\"") }
+        Enc::PctMin => min(false),
+        Enc::PctMinLower => min(true),
+        Enc::PctAll => all(),
+        Enc::QuotedPctMin => format!("\"{}\"", min(false)),
+        Enc::QuotedPctAll => format!("\"{}\"", all()),
+    })
+}
+
+/// cookie-string = cookie-pair *( ";" SP cookie-pair )
+pub fn encode_cookie_header(pairs: &[(&str, &str)]) -> String {
+    pairs.iter().map(|(n, v)| format!("{n}={v}")).collect::<Vec<_>>().join("; ")
+}
+
+/// Strict reader of a cookie-string (RFC 6265 section 4.2.1 with the section 4.1.1 cookie-pair): (name, wire value) pairs.
+pub fn parse_cookie_header(s: &str) -> Result<Vec<(String, String)>, String> {
+    let mut out = Vec::new();
+    for (i, pair) in s.split("; ").enumerate() {
+        let (n, v) = pair.split_once('=').ok_or_else(|| format!("pair {i} has no `=`"))?;
+        if !is_token(n) { return Err(format!("name of pair {i} is not a token")) }
+        let inner = if v.len() >= 2 && v.starts_with('"') && v.ends_with('"') { &v[1..v.len() - 1] } else { v };
+        if !inner.bytes().all(is_cookie_octet) { return Err(format!("value of pair {i} holds a byte that is not a cookie-octet")) }
+        out.push((n.to_string(), v.to_string()));
+    }
+    Ok(out)
+}
+
+/// The value a wire form stands for when the percent convention is in use: DQUOTEs removed, `%XX` decoded.
+pub fn decode_wire_value(wire: &str) -> Result<String, String> {
+    let inner = if wire.len() >= 2 && wire.starts_with('"') && wire.ends_with('"') { &wire[1..wire.len() - 1] } else { wire };
+    pct_decode(inner)
+}
+
+/* ---------------- response side: parsing a Set-Cookie line ---------------- */
+
+#[derive(Clone, Debug, Default, PartialEq, Eq)]
+pub struct SetCookieParsed {
+    pub name: String,
+    /// as written (quotes included)
+    pub value_wire: String,
+    pub expires: Option<String>,
+    /// the digits as written
+    pub max_age: Option<String>,
+    pub domain: Option<String>,
+    pub path: Option<String>,
+    pub secure: bool,
+    pub http_only: bool,
+    pub same_site: Option<String>,
+    pub extensions: Vec<String>,
+    /// places where the line is outside the strict section 4.1.1 grammar although every user agent reads it the
+    /// intended way (only `Max-Age=0`: the grammar says non-zero-digit *DIGIT)
+    pub lenient: Vec<&'static str>,
+}
+
+fn is_rfc1123_date(s: &str) -> bool {
+    // wkday "," SP 2DIGIT SP month SP 4DIGIT SP 2DIGIT ":" 2DIGIT ":" 2DIGIT SP "GMT"
+    let b = s.as_bytes();
+    if b.len() != 29 { return false }
+    let wk = ["Mon", "Tue", "Wed", "Thu", "Fri", "Sat", "Sun"];
+    let mo = ["Jan", "Feb", "Mar", "Apr", "May", "Jun", "Jul", "Aug", "Sep", "Oct", "Nov", "Dec"];
+    let d = |r: std::ops::Range<usize>| s[r].bytes().all(|c| c.is_ascii_digit());
+    wk.contains(&&s[0..3]) && &s[3..5] == ", " && d(5..7) && b[7] == b' ' && mo.contains(&&s[8..11]) && b[11] == b' ' && d(12..16) && b[16] == b' '
+        && d(17..19) && b[19] == b':' && d(20..22) && b[22] == b':' && d(23..25) && &s[25..] == " GMT"
+}
+
+fn is_subdomain(s: &str) -> bool {
+    !s.is_empty() && s.split('.').all(|l| !l.is_empty() && l.len() <= 63 && l.bytes().all(|b| b.is_ascii_alphanumeric() || b == b'-')
+        && !l.starts_with('-') && !l.ends_with('-'))
+}
+
+fn is_av_octets(s: &str) -> bool { s.bytes().all(|b| (0x20..0x7F).contains(&b) && b != b';') }
+
+/// set-cookie-string = cookie-pair *( ";" SP cookie-av ), every attribute at most once.
+/// Errors say *where* the line leaves the grammar (`name`, `value`, `separator`, or the lower-cased attribute name).
+pub fn parse_set_cookie(line: &str) -> Result<SetCookieParsed, (String, String)> {
+    let e = |at: &str, msg: String| -> (String, String) { (at.to_string(), msg) };
+    let mut pieces = line.split(';');
+    let pair = pieces.next().unwrap();
+    let (name, value) = pair.split_once('=').ok_or_else(|| e("name", "cookie-pair has no `=`".into()))?;
+    if !is_token(name) { return Err(e("name", format!("cookie-name `{name}` is not a token"))) }
+    let inner = if value.len() >= 2 && value.starts_with('"') && value.ends_with('"') { &value[1..value.len() - 1] } else { value };
+    if let Some(bad) = inner.bytes().find(|b| !is_cookie_octet(*b)) { return Err(e("value", format!("cookie-value holds byte 0x{bad:02X}, which is not a cookie-octet"))) }
+    let mut p = SetCookieParsed { name: name.into(), value_wire: value.into(), ..Default::default() };
+    for av in pieces {
+        let av = av.strip_prefix(' ').ok_or_else(|| e("separator", "`;` not followed by SP".into()))?;
+        if av.starts_with(' ') { return Err(e("separator", "more than one SP after `;`".into())) }
+        let (k, v) = match av.split_once('=') { Some((k, v)) => (k, Some(v)), None => (av, None) };
+        let lk = k.to_ascii_lowercase();
+        let dup = |set: bool| if set { Err(e(&lk, format!("attribute `{k}` appears twice"))) } else { Ok(()) };
+        match (lk.as_str(), v) {
+            ("expires", Some(v)) => { dup(p.expires.is_some())?; if !is_rfc1123_date(v) { return Err(e(&lk, format!("Expires `{v}` is not an rfc1123-date"))) } p.expires = Some(v.into()) }
+            ("max-age", Some(v)) => {
+                dup(p.max_age.is_some())?;
+                if v.is_empty() || !v.bytes().all(|b| b.is_ascii_digit()) { return Err(e(&lk, format!("Max-Age `{v}` is not a number"))) }
+                if v == "0" { p.lenient.push("max-age-zero") } else if v.starts_with('0') { return Err(e(&lk, format!("Max-Age `{v}` has a leading zero"))) }
+                p.max_age = Some(v.into())
+            }
+            ("domain", Some(v)) => { dup(p.domain.is_some())?; if !is_subdomain(v) { return Err(e(&lk, format!("Domain `{v}` is not a subdomain"))) } p.domain = Some(v.into()) }
+            ("path", Some(v)) => { dup(p.path.is_some())?; if !is_av_octets(v) { return Err(e(&lk, "Path holds a CTL or `;`".to_string())) } p.path = Some(v.into()) }
+            ("secure", None) => { dup(p.secure)?; p.secure = true }
+            ("httponly", None) => { dup(p.http_only)?; p.http_only = true }
+            ("samesite", Some(v)) => { dup(p.same_site.is_some())?; if !["Strict", "Lax", "None"].iter().any(|x| x.eq_ignore_ascii_case(v)) { return Err(e(&lk, format!("SameSite `{v}` is not Strict/Lax/None"))) } p.same_site = Some(v.into()) }
+            ("expires" | "max-age" | "domain" | "path" | "samesite", None) => return Err(e(&lk, format!("attribute `{k}` needs a value"))),
+            ("secure" | "httponly", Some(_)) => return Err(e(&lk, format!("attribute `{k}` takes no value"))),
+            _ => { if !is_av_octets(av) || av.is_empty() { return Err(e("extension", "extension-av holds a CTL or is empty".into())) } p.extensions.push(av.into()) }
+        }
+    }
+    Ok(p)
+}
+
+#[cfg(test)]
+mod t {
+    use super::*;
+
+    #[test] fn rfc6265_examples() {
+        let p = parse_set_cookie("SID=31d4d96e407aad42; Path=/; Secure; HttpOnly").unwrap();
+        assert_eq!((p.name.as_str(), p.value_wire.as_str(), p.path.as_deref(), p.secure, p.http_only), ("SID", "31d4d96e407aad42", Some("/"), true, true));
+        let p = parse_set_cookie("lang=en-US; Expires=Wed, 09 Jun 2021 10:18:14 GMT").unwrap();
+        assert_eq!(p.expires.as_deref(), Some("Wed, 09 Jun 2021 10:18:14 GMT"));
+        let p = parse_set_cookie("lang=; Max-Age=0; Domain=example.com; SameSite=Lax").unwrap();
+        assert_eq!((p.max_age.as_deref(), p.lenient.as_slice(), p.same_site.as_deref()), (Some("0"), &["max-age-zero"][..], Some("Lax")));
+        for bad in ["a b=1", "a=1;Path=/", "a=1;  Path=/", "a=x y", "a=1; Max-Age=01", "a=1; Max-Age=-1", "a=1; Path=/; Path=/", "a=\"", "a=1; Secure=1", "a=1; Expires=tomorrow", "=1", "a"] {
+            assert!(parse_set_cookie(bad).is_err(), "{bad}");
+        }
+        assert_eq!(parse_cookie_header("SID=31d4d96e407aad42; lang=en-US").unwrap(), vec![("SID".to_string(), "31d4d96e407aad42".to_string()), ("lang".into(), "en-US".into())]);
+        assert!(parse_cookie_header("a=1;b=2").is_err());
+        assert!(parse_cookie_header("a=x y").is_err());
+    }
+
+    #[test] fn value_encodings() {
+        assert_eq!(encode_value("a b", Enc::Plain), None);
+        assert_eq!(encode_value("a b", Enc::PctMin).unwrap(), "a%20b");
+        assert_eq!(encode_value("é", Enc::PctMinLower).unwrap(), "%c3%a9");
+        assert_eq!(encode_value("a=b", Enc::PctMin).unwrap(), "a=b");
+        assert_eq!(encode_value("a=b", Enc::PctAll).unwrap(), "a%3Db");
+        assert_eq!(encode_value("%41", Enc::PctMin).unwrap(), "%2541");
+        assert_eq!(encode_value("\"q\"", Enc::QuotedPctMin).unwrap(), "\"%22q%22\"");
+        assert_eq!(encode_value("", Enc::Quoted).unwrap(), "\"\"");
+        for v in ["", "a", "a b", "é", "a=b", "a;b", "\"q\"", "%41", "a,b", "😀", "&b"] {
+            for e in Enc::ALL {
+                if let Some(w) = encode_value(v, e) {
+                    assert_eq!(Enc::from_tag(e.tag()), Some(e));
+                    let hdr = encode_cookie_header(&[("n", &w)]);
+                    let back = parse_cookie_header(&hdr).unwrap();
+                    assert_eq!(back, vec![("n".to_string(), w.clone())]);
+                    if e.is_pct() || !has_pct_triplet(v) { assert_eq!(decode_wire_value(&w).unwrap(), v, "{v} {e:?}") }
+                }
+            }
+        }
+        assert!(has_pct_triplet("%41") && !has_pct_triplet("%4") && !has_pct_triplet("100%") && has_pct_triplet("a%2fb"));
+        assert!(pct_decode("%zz").is_err() && pct_decode("%FF").is_err());
+    }
+}
